@@ -155,6 +155,11 @@ func runC15(c *Ctx) {
 					mid := strings.TrimSuffix(strings.TrimPrefix(res, `phi(""|(↺ + (phi(""|`), `) + elem($0))))`)
 					sepJoin = strings.Trim(mid, `"`)
 				}
+				if !okShape && strings.HasPrefix(res, `strings.Join($0,"`) && strings.HasSuffix(res, `")`) {
+					// the same concatenation by the standard library
+					okShape = true
+					sepJoin = strings.TrimSuffix(strings.TrimPrefix(res, `strings.Join($0,"`), `")`)
+				}
 				r.Check("C15.4", "value-join", okShape && sameSet(er.guards, []string{"loopdone($0)"}), c.pos(er.ret), "the value is the devices joined in order by one separator (found "+res+")")
 				continue
 			}
